@@ -43,6 +43,7 @@ structure Marg (α : Type) where
   constraints : List ConKind
   e0 : α                    -- compiled edge knots
   e1 : α
+  catDtype : Bool := false  -- spline: dtype == 'categorical' ('auto' resolves to l2; data knots widened by 0.5, already in e0/e1)
 
 inductive Term (α : Type) where
   | intercept : Term α
@@ -115,12 +116,12 @@ end columns
 section penalties
 variable [Zero α] [One α] [Add α] [Sub α] [Mul α]
 
-/-- resolution of `'auto'`: numerical spline → derivative (`cp`: periodic); linear / factor → l2 -/
+/-- resolution of `'auto'`: numerical spline → derivative (`cp`: periodic); categorical spline, linear, factor → l2 -/
 def Marg.resolvePen (m : Marg α) (k : PenKind) : PenKind :=
   match k with
   | .auto =>
     match m.kind with
-    | .spline => if m.cyclic then .periodic else .derivative
+    | .spline => if m.catDtype then .l2 else if m.cyclic then .periodic else .derivative
     | .linear => .l2
     | .factor => .l2
   | k => k
